@@ -1,9 +1,13 @@
 /* Engine `win` (C01, C02): drives /repo/src/window.c (+ rectset.c, renderbuffer.c, term.c) through the public API,
  * on a terminal whose driver is the harness-owned grid driver (griddrv.h).
  *
- *   new <C01|C02> <lines> <cols> <a|p|r|m> <pen>          terminal + root window (id 0); scroll oracle accept/partial/refuse,
+ *   new <C01|C02> <lines> <cols> <a|p|r|m|x> <pen>        terminal + root window (id 0); scroll oracle accept/partial/refuse,
  *                                                         or m: the library's own mock terminal instead of the grid driver
- *                                                         (no resize / scrollmode then)
+ *                                                         (no resize / scrollmode then),
+ *                                                         or x: the library's xterm driver (tickit_term_build, termtype
+ *                                                         "xterm", an output function): no grid is printed, every
+ *                                                         observation ends with X=<the bytes the terminal was sent during
+ *                                                         the operation, hex> (no scrollmode then)
  *   win <id> <parent> <top> <left> <lines> <cols> <flags> <pen>     flags: subset of r(oot-parent) h(idden) l(owest) s(teal), or -
  *   beh <id> <instr>...                                   expose-handler program of a window (default: P)
  *   close|show|hide|raise|raisefront|lower|lowerback <id>
@@ -16,15 +20,25 @@
  *   scrollch <id> <d> <r>            tickit_window_scroll_with_children, then the application's half: every child moved by (-d, -r)
  *                                    with set_geometry, nothing exposed (tickit_window_scroll.3: "does not actually move the child windows")
  *   resize <lines> <cols> | scrollmode <a|p|r> | flush
- *   pen: pen=N (NULL) | pen=fg:bg:b with each field an integer or x (absent)
- *   instr: P | E:t:l:n:k | T:l:c:hex | C:l:c:cp | S:t:l:n:k | K | N:bg:b | X:d:r | L:t:l:n:k
+ *   pen: pen=N (NULL) | pen=fg:bg:b[:rv] with each field an integer or x (absent)
+ *   instr: P | E:t:l:n:k | T:l:c:hex | C:l:c:cp | S:t:l:n:k | K | N:bg:b[:rv] | X:d:r | L:t:l:n:k
  *          | e:dt:dl:dn:dk | t:dl:dc:hex | c:dl:dc:cp | s:dt:dl:dn:dk      (lower case: relative to the handed rectangle)
+ *          | H:line:c0:c1:style:caps | I:l0:l1:col:style:caps               hline_at / vline_at (h, i: relative); style 1..3
+ *          | Y:dt:dl:st:sl:n:k | M:dt:dl:st:sl:n:k       tickit_renderbuffer_copyrect / moverect(dest at dt,dl; src st,sl,n,k),
+ *                                                        coordinates as the library takes them (the source in buffer
+ *                                                        coordinates); not called when the source rectangle is not inside
+ *                                                        the buffer, when some cell of it belongs to another window, or
+ *                                                        when the walk of copyrect would read cells it has written
+ *                                                        (WinRB.copyDomain: see there)
+ *          | V | v | R                                   tickit_renderbuffer_save / savepen / restore; an R with none of the
+ *                                                        handler's own frames on the stack is not executed, frames left
+ *                                                        over are popped when the handler returns
  *          | Z:id | Z:id:t:l:n:k | z:dt:dl:dn:dk     tickit_window_expose from inside the handler (z: own window, relative)
  *
  * Observation (one line per operation):  r=<ret> T=<tree> E=<expose events> G=<grid or ->
  *   tree:   id,parent,top,left,lines,cols,visible,children(dot separated or -) joined by |   (closed window: id,x)
  *   events: id:top,left,lines,cols joined by ;  (- if none)
- *   grid:   rows joined by |, five characters per cell: glyph (two), fg+1, bg+1, bold
+ *   grid:   rows joined by |, five characters per cell: glyph (two), fg+1, bg+1, bold + 2 * reverse
  */
 #define HCOMMON_MAIN
 #include "hcommon.h"
@@ -39,6 +53,9 @@
 
 static GridDrv *gd;
 static TickitMockTerm *mt;       /* second configuration: the library's own mock terminal (scroll oracle m) */
+static int xmode;                /* third configuration: the library's xterm driver writing to an output function (x) */
+static unsigned char *xbuf;      /* the bytes it was handed since the previous observation */
+static size_t xlen, xcap;
 static TickitTerm *tt;
 static TickitWindow *wins[MAXW];
 static int nwins;
@@ -49,6 +66,18 @@ static int nshift[MAXW];
 static int logging;
 static char evbuf[65536];
 static size_t evlen;
+
+static void xt_output(TickitTerm *t, const char *bytes, size_t len, void *user)
+{
+  (void)t; (void)user;
+  if(!bytes || !len) return;      /* (NULL, 0) when the terminal is destroyed */
+  if(xlen + len + 1 > xcap) {
+    xcap = (xlen + len + 1) * 2;
+    xbuf = realloc(xbuf, xcap);
+  }
+  memcpy(xbuf + xlen, bytes, len);
+  xlen += len;
+}
 
 static int pmod(int x, int m) { int r = x % m; return r < 0 ? r + m : r; }
 
@@ -102,10 +131,12 @@ static TickitPen *parse_pen(const char *tok, int *isnull)
   TickitPen *pen = tickit_pen_new();
   char *copy = strdup(tok), *save = NULL;
   char *f = strtok_r(copy, ":", &save), *b = f ? strtok_r(NULL, ":", &save) : NULL, *bo = b ? strtok_r(NULL, ":", &save) : NULL;
+  char *rv = bo ? strtok_r(NULL, ":", &save) : NULL;
   int v;
   if(f && parse_field(f, &v)) tickit_pen_set_colour_attr(pen, TICKIT_PEN_FG, v);
   if(b && parse_field(b, &v)) tickit_pen_set_colour_attr(pen, TICKIT_PEN_BG, v);
   if(bo && parse_field(bo, &v)) tickit_pen_set_bool_attr(pen, TICKIT_PEN_BOLD, v);
+  if(rv && parse_field(rv, &v)) tickit_pen_set_bool_attr(pen, TICKIT_PEN_REVERSE, v);
   free(copy);
   return pen;
 }
@@ -132,8 +163,60 @@ static void paint(int id, const TickitRect *rect, TickitRenderBuffer *rb)
   }
 }
 
+/* WinRB.safeDirection: the walk of copyrect (chosen from lo, co) never reads a cell it has already written when the real
+ * displacement is (dl, dc) */
+static int safe_direction(int n, int k, int lo, int co, int dl, int dc)
+{
+  if(abs(dl) >= n || abs(dc) >= k) return 1;
+  if(dl > 0 && lo > 0) return 1;
+  if(dl < 0 && lo <= 0) return 1;
+  if(dl == 0) {
+    int leftwards = (lo == 0 && co > 0);
+    if(dc > 0 && leftwards) return 1;
+    if(dc < 0 && !leftwards) return 1;
+    if(dc == 0) return 1;
+  }
+  return 0;
+}
+
+#define MAXFRAMES 64
+
+static int win_id(TickitWindow *w);
+
+/* The window that owns buffer cell (l, c) in the painter's-model composition of the tree as it stands (WinSpec.ownerAt),
+ * from the public queries; -1 = nobody. */
+static int owner_of(int l, int c)
+{
+  TickitWindow *w = wins[0];
+  TickitRect g = tickit_window_get_geometry(w);
+  if(!tickit_window_is_visible(w) || l < g.top || c < g.left || l >= g.top + g.lines || c >= g.left + g.cols)
+    return -1;
+  l -= g.top; c -= g.left;
+  for(;;) {
+    TickitWindow *ch[MAXW + 1], *next = NULL;
+    size_t n = tickit_window_get_children(w, ch, MAXW + 1);
+    for(size_t k = 0; k < n && !next; k++) {
+      if(!tickit_window_is_visible(ch[k])) continue;
+      TickitRect r = tickit_window_get_geometry(ch[k]);
+      if(l >= r.top && l < r.top + r.lines && c >= r.left && c < r.left + r.cols) {
+        next = ch[k]; l -= r.top; c -= r.left;
+      }
+    }
+    if(!next) return win_id(w);
+    w = next;
+  }
+}
+
 static void run_prog(int id, const char *prog, const TickitRect *rect, TickitRenderBuffer *rb)
 {
+  /* the translation in force (the library has no query for it): the window's position in the buffer on entry,
+   * then what the program itself does */
+  TickitRect abs = tickit_window_get_abs_geometry(wins[id]);
+  int xl = abs.top, xc = abs.left;
+  struct { int xl, xc, pen_only; } frames[MAXFRAMES];
+  int nframes = 0;
+  int rblines, rbcols;
+  tickit_renderbuffer_get_size(rb, &rblines, &rbcols);
   char *copy = strdup(prog), *save = NULL;
   for(char *ins = strtok_r(copy, " ", &save); ins; ins = strtok_r(NULL, " ", &save)) {
     char *f[8]; int nf = 0; char *s2 = NULL;
@@ -164,18 +247,62 @@ static void run_prog(int id, const char *prog, const TickitRect *rect, TickitRen
         break;
       case 'K': tickit_renderbuffer_clear(rb); break;
       case 'N':
-        if(nf == 3) {
+        if(nf == 3 || nf == 4) {
           TickitPen *pen = tickit_pen_new();
           int v;
           tickit_pen_set_colour_attr(pen, TICKIT_PEN_FG, id + 1);   /* the writer tag */
           if(parse_field(f[1], &v)) tickit_pen_set_colour_attr(pen, TICKIT_PEN_BG, v);
           if(parse_field(f[2], &v)) tickit_pen_set_bool_attr(pen, TICKIT_PEN_BOLD, v);
+          if(nf == 4 && parse_field(f[3], &v)) tickit_pen_set_bool_attr(pen, TICKIT_PEN_REVERSE, v);
           tickit_renderbuffer_setpen(rb, pen);
           tickit_pen_unref(pen);
         }
         break;
       case 'X':
-        if(nf == 3) tickit_renderbuffer_translate(rb, atoi(f[1]), atoi(f[2]));
+        if(nf == 3) {
+          tickit_renderbuffer_translate(rb, atoi(f[1]), atoi(f[2]));
+          xl += atoi(f[1]); xc += atoi(f[2]);
+        }
+        break;
+      case 'H': case 'h':
+        if(nf == 6 && atoi(f[4]) >= 1 && atoi(f[4]) <= 3 && atoi(f[5]) >= 0 && atoi(f[5]) <= 3)
+          tickit_renderbuffer_hline_at(rb, bt + atoi(f[1]), bl + atoi(f[2]), bl + atoi(f[3]), atoi(f[4]), atoi(f[5]));
+        break;
+      case 'I': case 'i':
+        if(nf == 6 && atoi(f[4]) >= 1 && atoi(f[4]) <= 3 && atoi(f[5]) >= 0 && atoi(f[5]) <= 3)
+          tickit_renderbuffer_vline_at(rb, bt + atoi(f[1]), bt + atoi(f[2]), bl + atoi(f[3]), atoi(f[4]), atoi(f[5]));
+        break;
+      case 'Y': case 'M':
+        if(nf == 7) {
+          TickitRect src  = { .top = atoi(f[3]), .left = atoi(f[4]), .lines = atoi(f[5]), .cols = atoi(f[6]) };
+          TickitRect dest = { .top = atoi(f[1]), .left = atoi(f[2]), .lines = src.lines, .cols = src.cols };
+          int lo = dest.top - src.top, co = dest.left - src.left;
+          int inside = src.top >= 0 && src.left >= 0 && src.lines > 0 && src.cols > 0 &&
+                       src.top + src.lines <= rblines && src.left + src.cols <= rbcols;
+          /* a handler copies cells of its own window only (the source is in buffer coordinates: see WinRB.copyDomain) */
+          int own = inside && src.lines <= 64 && src.cols <= 256;
+          for(int i = 0; own && i < src.lines; i++)
+            for(int j = 0; own && j < src.cols; j++)
+              if(owner_of(src.top + i, src.left + j) != id) own = 0;
+          if(own && ((lo == 0 && co == 0) || safe_direction(src.lines, src.cols, lo, co, lo + xl, co + xc))) {
+            if(k == 'Y') tickit_renderbuffer_copyrect(rb, &dest, &src);
+            else         tickit_renderbuffer_moverect(rb, &dest, &src);
+          }
+        }
+        break;
+      case 'V': case 'v':
+        if(nf == 1 && nframes < MAXFRAMES) {
+          if(k == 'V') tickit_renderbuffer_save(rb); else tickit_renderbuffer_savepen(rb);
+          frames[nframes].xl = xl; frames[nframes].xc = xc; frames[nframes].pen_only = (k == 'v');
+          nframes++;
+        }
+        break;
+      case 'R':
+        if(nf == 1 && nframes > 0) {
+          tickit_renderbuffer_restore(rb);
+          nframes--;
+          if(!frames[nframes].pen_only) { xl = frames[nframes].xl; xc = frames[nframes].xc; }
+        }
         break;
       case 'Z':   /* tickit_window_expose from inside the handler */
         if(nf == 2 || nf == 6) {
@@ -200,6 +327,8 @@ static void run_prog(int id, const char *prog, const TickitRect *rect, TickitRen
     free(icopy);
   }
   free(copy);
+  while(nframes-- > 0)
+    tickit_renderbuffer_restore(rb);
 }
 
 static int on_expose(TickitWindow *win, TickitEventFlags flags, void *_info, void *user)
@@ -241,13 +370,15 @@ static void dump_tree(void)
 }
 
 /* two characters per glyph: ".x" ASCII (space = "~"), "}}" second half of a double-width character,
- * "Wx" the fullwidth form of ASCII x (U+FF01..U+FF5E), "{{" anything else */
+ * "Wx" the fullwidth form of ASCII x (U+FF01..U+FF5E), "bh".."ih" the box-drawing character U+2500 + 16 * (letter - b) + h,
+ * "{{" anything else */
 static void glyph_chars(int g, char *out)
 {
   if(g == 32) { out[0] = '.'; out[1] = '~'; }
   else if(g == 0) { out[0] = '}'; out[1] = '}'; }
   else if(g >= 33 && g <= 122) { out[0] = '.'; out[1] = (char)g; }
   else if(g >= 0xff01 && g <= 0xff5e) { out[0] = 'W'; out[1] = (char)(g - 0xfee0); }
+  else if(g >= 0x2500 && g <= 0x257f) { out[0] = (char)('b' + ((g - 0x2500) >> 4)); out[1] = "0123456789abcdef"[g & 15]; }
   else { out[0] = '{'; out[1] = '{'; }
 }
 
@@ -291,7 +422,7 @@ static void dump_grid(void)
       glyph_chars(glyph, row + 5 * c);
       row[5 * c + 2] = (fg >= -1 && fg <= 40) ? '0' + fg + 1 : '!';
       row[5 * c + 3] = (bg >= -1 && bg <= 40) ? '0' + bg + 1 : '!';
-      row[5 * c + 4] = attrs == 0 ? '0' : attrs == 1 ? '1' : '!';
+      row[5 * c + 4] = (attrs & ~5) ? '!' : (char)('0' + (attrs & 1) + ((attrs & 4) ? 2 : 0));
     }
     row[n] = 0;
     obs("%s%s", l ? "|" : "", row);
@@ -306,13 +437,18 @@ static void finish(int ret, int events, int grid)
   dump_tree();
   if(events) obs(" E=%s", evlen ? evbuf : "-");
   else obs(" E=-");
-  if(grid) dump_grid();
+  if(grid && !xmode) dump_grid();
   else obs(" G=-");
+  if(xmode) {
+    obs(" X=");
+    obs_hex(xbuf, xlen);
+    xlen = 0;
+  }
 }
 
 static void engine_begin(void)
 {
-  gd = NULL; mt = NULL; tt = NULL; nwins = 0; evlen = 0; logging = 1;
+  gd = NULL; mt = NULL; tt = NULL; nwins = 0; evlen = 0; logging = 1; xmode = 0; xlen = 0;
   memset(wins, 0, sizeof wins); memset(closedw, 0, sizeof closedw);
   memset(behprog, 0, sizeof behprog); memset(nshift, 0, sizeof nshift);
 }
@@ -356,10 +492,16 @@ static void engine_op(int argc, char **argv)
   if(strcmp(op, "new") == 0) {
     if(argc != 6 || tt) { obs("bad-op"); return; }
     int lines = atoi(argv[2]), cols = atoi(argv[3]);
-    if(lines < 1 || cols < 1 || lines > 64 || cols > 120) { obs("bad-op"); return; }
+    if(lines < 1 || cols < 1 || lines > 64 || cols > 200) { obs("bad-op"); return; }
     if(argv[4][0] == 'm') {
       mt = tickit_mockterm_new(lines, cols);
       tt = (TickitTerm *)mt;
+    }
+    else if(argv[4][0] == 'x') {
+      xmode = 1;
+      tt = tickit_term_build(&(struct TickitTermBuilder){ .termtype = "xterm", .output_func = xt_output });
+      if(!tt) { obs("bad-op"); xmode = 0; return; }
+      tickit_term_set_size(tt, lines, cols);
     }
     else {
       gd = griddrv_new(lines, cols, scrollmode_of(argv[4]));
@@ -415,13 +557,14 @@ static void engine_op(int argc, char **argv)
   }
   if(strcmp(op, "resize") == 0 && argc == 3) {
     int lines = atoi(argv[1]), cols = atoi(argv[2]);
-    if(lines < 1 || cols < 1 || lines > 64 || cols > 120 || mt) { obs("bad-op"); return; }
-    griddrv_resize(gd, tt, lines, cols);
+    if(lines < 1 || cols < 1 || lines > 64 || cols > 200 || mt) { obs("bad-op"); return; }
+    if(xmode) tickit_term_set_size(tt, lines, cols);
+    else griddrv_resize(gd, tt, lines, cols);
     finish(0, 0, 1);
     return;
   }
   if(strcmp(op, "scrollmode") == 0 && argc == 2) {
-    if(mt) { obs("bad-op"); return; }
+    if(mt || xmode) { obs("bad-op"); return; }
     gd->scrollmode = scrollmode_of(argv[1]);
     finish(0, 0, 0);
     return;
